@@ -145,6 +145,61 @@ def ffftExpTable (n : Nat) : List (List Nat) :=
 def ffftOps (n : Nat) : List FfftOp :=
   if n ≤ 1 then [] else ffftRec 0 n (primeFactors n n)
 
+/-! ### action of the ffft operations on one-particle coefficient vectors
+
+`U a†_k U⁻¹ = Σ_j M_kj a†_j` with `M = g₁ g₂ ⋯ g_m` for the gates in circuit order, where `g` is the
+single-particle matrix of a gate (`G a†_p G⁻¹ = Σ_q g_pq a†_q`): the row `e_k M` is obtained by letting the
+operations act, in order, on a coefficient vector `v` (`v ↦ v·g`):
+* `_permute` (FSWAP network, `G a†_i G⁻¹ = a†_{π(i)}`): `v'[π(i)] = v[i]`; its `cirq.inverse`: `v'[i] = v[π(i)]`;
+* `F0` on `(q, q+1)` (`a†_q ↦ (a†_q + a†_{q+1})/√2`, `a†_{q+1} ↦ (a†_q − a†_{q+1})/√2`):
+  `v'[q] = v[q] + v[q+1]`, `v'[q+1] = v[q] − v[q+1]` (the factor `2^{-1/2}` per layer is kept out);
+* `_TwiddleGate(k, n)` on `q`: `v'[q] = ω_n^k v[q]`, `ω_n = e^{-2πi/n} = ω_N^{N/n}`.
+The coefficient type is abstract (operations passed explicitly) so that the same function runs in the driver
+on integer vectors modulo `X^{N/2} + 1` and is reasoned about over any commutative ring. -/
+
+structure CoefOps (α : Type) where
+  add : α → α → α
+  sub : α → α → α
+  /-- multiplication by `ω_N^e` -/
+  rot : Nat → α → α
+
+def applyFfftOp {α : Type} (O : CoefOps α) (N : Nat) (v : Nat → α) (op : FfftOp) : Nat → α :=
+  match op with
+  | .perm start p false => fun i =>
+      if start ≤ i ∧ i < start + p.length then v (start + p.idxOf (i - start)) else v i
+  | .perm start p true => fun i =>
+      if start ≤ i ∧ i < start + p.length then v (start + p.getD (i - start) 0) else v i
+  | .f0 q => fun i =>
+      if i = q then O.add (v q) (v (q + 1)) else if i = q + 1 then O.sub (v q) (v (q + 1)) else v i
+  | .twiddle k n q => fun i => if i = q then O.rot (k * (N / n)) (v q) else v i
+  | .prime _ _ => v
+
+def runFfft {α : Type} (O : CoefOps α) (N : Nat) (ops : List FfftOp) (v : Nat → α) : Nat → α :=
+  ops.foldl (applyFfftOp O N) v
+
+/-- integer polynomials modulo `X^h + 1` (`h = N/2`), `ω_N = X`: coefficient lists of length `h` -/
+def negaRot (h e : Nat) (x : List Int) : List Int :=
+  let s := e % h
+  let flip := (e / h) % 2 == 1
+  (List.range h).map fun i =>
+    let c := if s ≤ i then x.getD (i - s) 0 else -(x.getD (i + h - s) 0)
+    if flip then -c else c
+
+def negaOps (h : Nat) : CoefOps (List Int) where
+  add a b := List.zipWith (· + ·) a b
+  sub a b := List.zipWith (· - ·) a b
+  rot e x := negaRot h e x
+
+/-- the single-particle matrix of `ffft` on `n = 2^m ≥ 2` modes (without the factor `n^{-1/2}`), entries as
+integer polynomials in `ω_n` modulo `ω_n^{n/2} = −1`: row `k` = the operations applied to the unit vector `e_k` -/
+def ffftSim (n : Nat) : List (List (List Int)) :=
+  let h := n / 2
+  let zero : List Int := List.replicate h 0
+  let one : List Int := (List.range h).map fun i => if i = 0 then 1 else 0
+  (List.range n).map fun k =>
+    let v := runFfft (negaOps h) n (ffftOps n) (fun i => if i = k then one else zero)
+    (List.range n).map v
+
 end C14
 end Model
 end OFV
